@@ -125,6 +125,24 @@ def task_siblings(arg):
 
     for t in subset:
         s = split(t)
+        if t in f and not any(t.endswith(f"_{g}") for g in SUPPORTED_GROUPINGS) and not t.endswith("_id") and full[t].to_numpy().dtype.kind in "fiub" \
+                and not (getattr(f[t], "__info__", {}) or {}).get("skip_vectorization"):
+            # an unused column named like the household-level aggregate of an individual-level rule
+            sib = f"{t}_hh"
+            anc_t = nx.ancestors(dag, t) if t in dag else set()
+            if sib not in cols and sib not in anc_t and sib not in f:
+                d2 = df.copy()
+                d2[sib] = df["hh_id"].to_numpy().astype(float) * 5.0 + 3.0
+                case = {"date": date_iso, "households": names, "target": t, "extra_column": sib}
+                out.state((date_iso[:4], t, sib))
+                try:
+                    r = run_api(d2, date_iso, [t])
+                    out.step()
+                    if not same(r[t].to_numpy(), full[t].to_numpy()):
+                        out.violation(f"value-depends-on-unused-sibling-column:{t}", case, f"{t} changes when the unused column {sib} is present ({date_iso})")
+                except Exception as e:  # noqa: BLE001
+                    out.step()
+                    out.violation(f"extra-sibling-column-raises:{t}", case, f"{e!r}"[:300])
         if not s or t not in f:
             continue
         anc = nx.ancestors(dag, t) if t in dag else set()
@@ -256,6 +274,49 @@ def task_options(arg):
         cmp("all-nodes-plus-all-derived", r, full, nodes)
     except Exception as e:  # noqa: BLE001
         out.violation(f"target-set-raises:all-nodes-plus-all-derived:{type(e).__name__}", case0, repr(e)[:400])
+    # an unused column named like a built-in aggregate without its group suffix (e.g. `anz_personen` next to the target `anz_personen_hh`)
+    from _gettsim.functions_loader import load_aggregation_dict
+    from _gettsim.shared import remove_group_suffix
+
+    _, f_env = harness.env(date_iso)
+    for agg, spec in sorted(load_aggregation_dict("aggregate_by_group").items()):
+        stripped = remove_group_suffix(agg)
+        if agg not in nodes or stripped in cols or stripped in nodes or stripped in f_env or stripped == agg:
+            continue
+        d2 = df.copy()
+        d2[stripped] = np.arange(n) % 3 + 2
+        try:
+            r = run_api(d2, date_iso, [agg])
+            out.step()
+            out.state((date_iso[:4], "stripped-name", agg))
+            if not same(r[agg].to_numpy(), full[agg].to_numpy()):
+                out.violation(f"value-depends-on-unused-column-named-like-aggregate:{agg}", {**case0, "target": agg, "extra_column": stripped},
+                              f"{agg} = {r[agg].tolist()[:5]} when the unused column {stripped} is present, {full[agg].tolist()[:5]} without it ({date_iso})")
+        except Exception as e:  # noqa: BLE001
+            out.violation(f"option-raises:stripped-name:{agg}:{type(e).__name__}", {**case0, "extra_column": stripped}, repr(e)[:300])
+    # empty spec dictionaries instead of None
+    try:
+        r = run_api(df, date_iso, None, aggregate_by_group_specs={}, aggregate_by_p_id_specs={})
+        cmp("empty-spec-dicts", r, base, list(DEFAULT_TARGETS))
+    except Exception as e:  # noqa: BLE001
+        out.violation(f"option-raises:empty-spec-dicts:{type(e).__name__}", case0, repr(e)[:300])
+    # pairs of non-default targets requested together (a rotating partner for every node)
+    nd = [t for t in nodes if t not in DEFAULT_TARGETS]
+    for i, t in enumerate(nd):
+        u = nd[(i * 7 + 3) % len(nd)]
+        if u == t:
+            continue
+        try:
+            r = run_api(df, date_iso, [t, u])
+            out.step()
+            out.state((date_iso[:4], "pair", t, u))
+            for c in (t, u):
+                if not same(r[c].to_numpy(), full[c].to_numpy()):
+                    out.violation(f"value-depends-on-target-set:{c}", {**case0, "target_set": "pair", "targets": [t, u]}, f"{c} differs when requested together with {u if c == t else t} on {date_iso}")
+            if sorted(r.columns) != sorted({t, u}) or len(r) != n:
+                out.violation("result-shape:pair", {**case0, "targets": [t, u]}, f"columns {sorted(r.columns)} rows {len(r)}")
+        except Exception as e:  # noqa: BLE001
+            out.violation(f"target-set-raises:pair:{t}+{u}", {**case0, "targets": [t, u]}, repr(e)[:300])
     # targets given as a string / with duplicates / in another order
     try:
         t0 = DEFAULT_TARGETS[0]
